@@ -7,7 +7,7 @@ From GI Require Import Lib.Bytes Gen.TsBatchConsts TsBatch.TsBatch TsDeadline.Ts
 Extraction Language OCaml.
 Extraction "extracted/tsbatch/model.ml" Byte.of_N Byte.to_N
   run init start alone step round_robin steps_bound initial_env setup_tree expected_node host_reads remove_all
-  defer_regs defer_runs bg_started bg_interrupted bg_waited is_done all_done
+  defer_regs defer_runs bg_started bg_gone bg_waited is_done all_done
   grace ctx_timeout ctx_deadline fg_kill_delay fg_params wos fg_exec uexec uparams_of ugood reach closed all_params
   texec tinit fg_tpar obligations
   timed_out_message min_grace grace_divisor grace_reserve.
